@@ -9,6 +9,7 @@ import CkptVerif.Model.MultistageIter
 import CkptVerif.Model.TwoLevelIter
 import CkptVerif.Model.BasicIter
 import CkptVerif.Model.Ops
+import CkptVerif.Model.Process
 /-!
 # Line-protocol driver over the executable model and the spec monitor
 
@@ -248,6 +249,10 @@ def kernel : List String → List String
     match cm.toNat?, uf.toNat?, wr.toNat? with
     | some cm, some uf, some wr => [match mxrr cm uf wr with | some m => toString m | none => "raise"]
     | _, _, _ => ["?"]
+  | "argmin" :: xs =>
+    match xs.mapM (fun w => if w = "inf" then some none else w.toNat?.map some) with
+    | some l => if l.isEmpty then ["raise"] else [toString (argminO l)]
+    | none => ["?"]
   | ["beta", x, y] =>
     match x.toNat?, y.toNat? with
     | some x, some y => [toString (beta x y)]
@@ -304,20 +309,100 @@ def twinEvs (T : Tabs) (k : Nat) (N : Nat) : List String → Option (Except Err 
   | _ => none
 
 /-- the operation sequence of the Revolve family, printed like Python's `repr(list(sequence))` -/
-def opsOf : List String → Option (Option (List Ops.Op))
+def opsOf : List String → Option (Costs × Option (List Ops.Op))
   | "RV" :: n :: cm :: costs => do
     let n ← n.toNat?; let cm ← cm.toNat?; let c ← parseCosts costs
-    pure (Ops.revolveOpsTop n cm c)
+    pure (c, Ops.revolveOpsTop n cm c)
   | "DR" :: n :: cm :: costs => do
     let n ← n.toNat?; let cm ← cm.toNat?; let c ← parseCosts costs
-    pure (Ops.diskRevolveOpsTop n cm c)
+    pure (c, Ops.diskRevolveOpsTop n cm c)
   | "PD" :: n :: cm :: costs => do
     let n ← n.toNat?; let cm ← cm.toNat?; let c ← parseCosts costs
-    pure (Ops.periodicOpsTop n cm c)
+    pure (c, Ops.periodicOpsTop n cm c)
   | "HR" :: n :: c0 :: c1 :: costs => do
     let n ← n.toNat?; let c0 ← c0.toNat?; let c1 ← c1.toNat?; let c ← parseCosts costs
-    pure (Ops.hrevolveOpsTop n c0 c1 c)
+    pure (c, Ops.hrevolveOpsTop n c0 c1 c)
   | _ => none
+
+/-! ## `proc`: an interleaved history over several objects and the shared memo tables
+
+Request `proc`, then one operation per line until `ENDPROC`:
+`C <class words>` construct (the object gets the next index, from 0) · `N i` next · `F i n` finalize ·
+`O i` read n, r, max_n, is_exhausted, is_running · `U i R|D|W|N` uses_storage_type ·
+`HE n s` optimal_extra_steps · `HM n s` optimal_steps_mixed · `HS n s` mixed_step_memoization.
+One answer line per operation. -/
+
+def parseStLong : String → Option Storage
+  | "RAM" => some .ram | "DISK" => some .disk | "WORK" => some .work | "NONE" => some .none
+  | s => parseSt s
+
+def parseSpec : List String → Option Proc.Spec
+  | ["SM"] => some .SM
+  | ["SD", mv] => do pure (.SD (← s2b mv))
+  | ["NO"] => some .NO
+  | ["TL", p, b, st, traj] => do
+    pure (.TL (← p.toNat?) (← b.toNat?) (← parseSt st) (← parseTraj traj))
+  | ["MS", n, ram, disk, traj] => do
+    pure (.MS (← n.toNat?) (← ram.toNat?) (← disk.toNat?) (← parseTraj traj))
+  | ["MX", n, s, st, numba] => do
+    pure (.MX (← n.toNat?) (← s.toNat?) (← parseSt st) (← s2b numba))
+  | ["RV", n, cm, uf, ub, wd, rd] => do
+    pure (.RV (← n.toNat?) (← cm.toNat?) (← uf.toNat?) (← ub.toNat?) (← wd.toNat?) (← rd.toNat?))
+  | ["DR", n, cm, uf, ub, wd, rd] => do
+    pure (.DR (← n.toNat?) (← cm.toNat?) (← uf.toNat?) (← ub.toNat?) (← wd.toNat?) (← rd.toNat?))
+  | ["PD", n, cm, uf, ub, wd, rd] => do
+    pure (.PD (← n.toNat?) (← cm.toNat?) (← uf.toNat?) (← ub.toNat?) (← wd.toNat?) (← rd.toNat?))
+  | ["HR", n, c0, c1, uf, ub, wd, rd] => do
+    pure (.HR (← n.toNat?) (← c0.toNat?) (← c1.toNat?) (← uf.toNat?) (← ub.toNat?) (← wd.toNat?)
+      (← rd.toNat?))
+  | _ => none
+
+def parsePOp : List String → Option Proc.POp
+  | "C" :: rest => (parseSpec rest).map .construct
+  | ["N", i] => do pure (.obj (← i.toNat?) .next)
+  | ["F", i, n] => do pure (.obj (← i.toNat?) (.finalize (← n.toInt?)))
+  | ["O", i] => do pure (.obj (← i.toNat?) .observe)
+  | ["U", i, st] => do pure (.obj (← i.toNat?) (.usesStorage (← parseStLong st)))
+  | ["HE", n, s] => do pure (.optimalExtraSteps (← n.toNat?) (← s.toNat?))
+  | ["HM", n, s] => do pure (.optimalStepsMixed (← n.toNat?) (← s.toNat?))
+  | ["HS", n, s] => do pure (.mixedStepMemo (← n.toNat?) (← s.toNat?))
+  | _ => none
+
+def ppPOut : Proc.POut → String
+  | .constructed none => "C ok"
+  | .constructed (some e) => "C X " ++ errStage e
+  | .next (.act o) => "A " ++ ppAct o.act ++ " | " ++ ppFlags o.n o.r o.maxN o.exhausted o.running
+  | .next .stop => "S"
+  | .next (.raised e) => "B " ++ errStage e
+  | .fin .ok => "f ok"
+  | .fin .valueError => "f ValueError"
+  | .fin .runtimeError => "f RuntimeError"
+  | .obs n r m e ru => "O " ++ ppFlags n r m e ru
+  | .uses b => "U " ++ ob2s b
+  | .helperNat (some v) => s!"H {v}"
+  | .helperNat none => "H raise"
+  | .helperCell (some c) => "H " ++ ppCell c
+  | .helperCell none => "H raise"
+  | .noObject => "?obj"
+
+/-- read the operations of a `proc` request; `none` for a line that does not parse -/
+partial def readProc (h : IO.FS.Stream) (acc : Array (Option Proc.POp)) :
+    IO (Array (Option Proc.POp)) := do
+  let line ← h.getLine
+  if line.isEmpty then return acc
+  let s := line.trimAsciiEnd.toString
+  if s = "ENDPROC" then return acc
+  readProc h (acc.push (parsePOp ((s.splitOn " ").filter (· ≠ ""))))
+
+/-- run the history, answering `?` for (and skipping) lines that did not parse -/
+def runProc (ops : List (Option Proc.POp)) : List String :=
+  let rec go (p : Proc.Proc) : List (Option Proc.POp) → List String
+    | [] => []
+    | none :: rest => "?" :: go p rest
+    | some op :: rest =>
+      let a := p.step op
+      ppPOut a.2 :: go a.1 rest
+  go Proc.Proc.init ops
 
 partial def readTrace (h : IO.FS.Stream) (acc : Array Line) : IO (Array Line) := do
   let line ← h.getLine
@@ -371,8 +456,10 @@ partial def loop (h : IO.FS.Stream) (out : IO.FS.Stream) (T : Tabs) : IO Unit :=
     | _ => out.putStrLn "?"
   | "ops" :: rest =>
     match opsOf rest with
-    | some (some ops) => out.putStrLn (Ops.ppOps ops)
-    | some none => out.putStrLn "raise"
+    | some (c, some ops) =>
+      out.putStrLn (Ops.ppOps ops)
+      out.putStrLn s!"makespan {Ops.makespan c ops}"
+    | some (_, none) => out.putStrLn "raise"
     | none => out.putStrLn "?"
   | "valid" :: rest =>
     match parseClass T rest with
@@ -380,6 +467,9 @@ partial def loop (h : IO.FS.Stream) (out : IO.FS.Stream) (T : Tabs) : IO Unit :=
     | none => out.putStrLn "?"
   | "kernel" :: rest =>
     for l in kernel rest do out.putStrLn l
+  | ["proc"] =>
+    let ops ← readProc h #[]
+    for l in runProc ops.toList do out.putStrLn l
   | _ => out.putStrLn "?"
   out.putStrLn "."
   out.flush
